@@ -203,7 +203,8 @@ def collect_sinks(F, key, summ=None, params=None):
             m = c.split("::")[-1]
             if m in PANIC_CALLS and ("core::" in c or "std::" in c):
                 sinks.append(("panic:" + m, body.loc(bi), None, {}))
-            elif m in INDEX_CALLS and ("core::" in c or "alloc::" in c or "std::" in c) and len(t["args"]) >= 2:
+            elif m in INDEX_CALLS and ("core::" in c or "alloc::" in c or "std::" in c) and len(t["args"]) >= 2 and (
+                    m in ("index", "index_mut") or "vec::Vec" in c or "vec_deque" in c or "slice" in c or "::str::" in c or "string::String" in c):
                 why = None
                 if m in ("index", "index_mut"):
                     why = guarded_index(body, flow, fln, bi, t)
